@@ -112,8 +112,12 @@ def replay(chk, case):
     # informational completeness <=> full column rank (exact rational rank of the specification)
     try:
         full = bool(qt.is_fullrank_matA())
-        if full != (case["rank"] == case["numvar"]):
-            bad("fullrank", "is_fullrank_matA()=%s but exact rank %d of %d columns" % (full, case["rank"], case["numvar"]))
+        # the library's predicate is "A has full rank" (rank = min(rows, columns)); for schedule subsets with fewer rows
+        # than variables that is full ROW rank.  The property's clause (informationally complete => full column rank)
+        # is an invariant of the specification instance; here the predicate is compared with the exact rank.
+        nrows = int(sum(row_sizes(tomo)))
+        if full != (case["rank"] == min(nrows, case["numvar"])):
+            bad("fullrank", "is_fullrank_matA()=%s but exact rank %d of a %d x %d matrix" % (full, case["rank"], nrows, case["numvar"]))
     except Exception as e:
         bad("fullrank:exception", "is_fullrank_matA raised %r" % e)
     # circuit side on physical candidates
